@@ -125,14 +125,17 @@ class Journaler:
             next_num_out: new expected num out (optional)
             next_num_in: new expected num in (optional)
         """
+        # both numbers are checked before either is applied: a refused call leaves
+        #  the session object as it was
+        assert next_num_out is None or next_num_out > 0
+        assert next_num_in is None or next_num_in > 0
+
         if next_num_out is not None:
-            assert next_num_out > 0
             session.next_num_out = next_num_out
         else:
             next_num_out = session.next_num_out
 
         if next_num_in is not None:
-            assert next_num_in > 0
             session.next_num_in = next_num_in
         else:
             next_num_in = session.next_num_in
